@@ -34,7 +34,7 @@ func main() {
 		c08g2.Functional(run, mounting, rng)
 		c08g1.Functional(run, mounting, rngRoot)
 	}
-	for _, mounting := range []string{"bare", "prefixed", "bare+filters"} {
+	for _, mounting := range []string{"bare", "prefixed", "bare+filters", "bare+strict"} {
 		c08g2.RunKit(run, mounting)
 		c08g1.RunKit(run, mounting)
 	}
